@@ -13,7 +13,8 @@ Definition base_run10 (code : Z) (ps : list Z) (vs : list (list Z)) : option (li
   else None.
 
 Definition run_c10 (code : Z) (ps : list Z) (vs : list (list Z)) : option (list (list Z)) :=
-  if 300000 <=? code then Some [[1; 1; 1; 1; 1; 1]]      (* samplers: results and stream positions agree *)
+  if 400000 <=? code then Some [[1; 1; 1]]               (* large ring degrees: equality flags only *)
+  else if 300000 <=? code then Some [[1; 1; 1; 1; 1; 1]]      (* samplers: results and stream positions agree *)
   else if 200000 <=? code then
     (* NTT120 family only (ps[0] = 3 in the record: 128-bit words) *)
     match base_run10 (code - 200000) ps vs with
